@@ -188,7 +188,27 @@ PROPS = {
     },
 }
 
+def _tagged_units():
+    """unit -> set of property ids for which it holds at least one `@OBL Cxx.` clause"""
+    out = {}
+    ud = os.path.join(VERIF, "units")
+    for u in sorted(os.listdir(ud)):
+        if not os.path.isdir(os.path.join(ud, u)):
+            continue
+        text = ""
+        for f in sorted(os.listdir(os.path.join(ud, u))):
+            if f.endswith((".vrs", ".spec")):
+                text += open(os.path.join(ud, u, f)).read()
+        out[u] = set(re.findall(r"@OBL (C\d\d)\.", text))
+    return out
+
+
+_TAGGED = _tagged_units()
 for _p, _c in PROPS.items():
+    # every READY unit holding a clause tagged for the property takes part in its check, listed explicitly or not
+    for _u in U(*sorted(_TAGGED)):
+        if _p in _TAGGED[_u] and _u not in _c["verus"] and _c["level"] == "proof":
+            _c["verus"].append(_u)
     _c.setdefault("note", TRUST_COMMON)
     _c.setdefault("design_ref", "DESIGN.md section 6, %s" % _p)
 
